@@ -69,6 +69,9 @@ func injectFailures(r *rng.R, s *spec.Spec, e *Env, timeoutPct int) map[string]s
 			case 1:
 				t.TrapTerm = true // ignores SIGTERM
 				kinds[t.Label()] = "timeout(shell-ignores-TERM)"
+			case 2:
+				t.BgHold = 150 // a background child outlives the timeout (and the build) and holds the output pipes
+				kinds[t.Label()] = "timeout(background-child-holds-the-pipes)"
 			}
 		default:
 			t.FailIf = "markers/fail_" + t.MID()
